@@ -1,12 +1,19 @@
 import TbbVerif.Core.Proto
 import TbbVerif.Model.C14
+import TbbVerif.Model.C14Res
+import TbbVerif.Model.C14Wait
+import TbbVerif.Model.C14Meta
 
 open TbbVerif
 
 def drivers : List (String × Proto.Driver) := [
   ("c14sim", C14.Sim.driver),
   ("c14cache", C14.cacheDriver),
-  ("c14net", C14.NetDrv.driver)
+  ("c14net", C14.NetDrv.driver),
+  ("c14res", C14.Res.DS.driver),
+  ("c14inp", C14.Res.IDS.driver),
+  ("c14wt", C14.Wait.WDrv.driver),
+  ("c14meta", C14.Meta.driver)
 ]
 
 def main (args : List String) : IO UInt32 := Proto.mainOf drivers args
